@@ -59,6 +59,16 @@ func (prop) Gen(r *core.Rand, tier string) []core.Case {
 		all = append(all, three(9, "10")...)
 		cs = append(cs, core.Case{ID: id, NT: true, Ops: all})
 	}
+	// every single bit of a 64-bit network id must be covered by the signature
+	{
+		const base = uint64(0x0102030405060708)
+		all := []string{"new 0 0 " + underlays[0] + " " + strconv.FormatUint(base, 10)}
+		all = append(all, three(0, strconv.FormatUint(base, 10))...)
+		for b := 0; b < 64; b++ {
+			all = append(all, three(0, strconv.FormatUint(base^(1<<uint(b)), 10))...)
+		}
+		cs = append(cs, core.Case{ID: "fix-netid-every-bit", NT: true, Ops: all})
+	}
 	fixed("fix-own", "mut 0 9 u app 0", "parse 0 11")
 	fixed("fix-underlay-flip", "mut 0 9 u flip 12")
 	fixed("fix-overlay-flip", "mut 0 9 o flip 0")
@@ -73,6 +83,9 @@ func (prop) Gen(r *core.Rand, tier string) []core.Case {
 	for i := 0; i < n; i++ {
 		c := core.Case{ID: fmt.Sprintf("g%d", i)}
 		nid := nids[r.Intn(len(nids))]
+		if r.Chance(40) { // any 64-bit network id (every byte of the id must be covered by the signature)
+			nid = strconv.FormatUint(r.U64(), 10)
+		}
 		nk := r.Range(1, 3)
 		for k := 0; k < nk; k++ {
 			c.Ops = append(c.Ops, fmt.Sprintf("new %d %d %s %s", k, k, underlays[r.Intn(len(underlays))], nid))
@@ -95,8 +108,13 @@ func (prop) Gen(r *core.Rand, tier string) []core.Case {
 				c.Ops = append(c.Ops, fmt.Sprintf("malleate %d %d", src, d))
 			case 9, 10:
 				c.Ops = append(c.Ops, fmt.Sprintf("take %d %d %d %d", d, r.Intn(nk), r.Intn(nk), r.Intn(nk)))
-			case 11: // another network id on the honest record
+			case 11: // another network id on the honest record: a listed one, or the same with ONE of its 64 bits flipped
 				other := nids[r.Intn(len(nids))]
+				if r.Chance(60) {
+					if v, err := strconv.ParseUint(nid, 10, 64); err == nil {
+						other = strconv.FormatUint(v^(1<<uint(r.Intn(64))), 10)
+					}
+				}
 				c.Ops = append(c.Ops, three(src, other)...)
 				muts++
 				continue
